@@ -1387,6 +1387,17 @@ fn BlockLengthPrefixCode(len: u32) -> u32 {
     code
 }
 
+/// Verification hook (only with `--cfg brotli_verif`): exposes the private block-length
+/// prefix code so that it can be compared with its formal model.
+#[cfg(brotli_verif)]
+pub fn verif_block_length_prefix_code(len: u32) -> (usize, u32, u32) {
+    let mut code: usize = 0;
+    let mut n_extra: u32 = 0;
+    let mut extra: u32 = 0;
+    GetBlockLengthPrefixCode(len, &mut code, &mut n_extra, &mut extra);
+    (code, n_extra, extra)
+}
+
 fn StoreVarLenUint8(n: u64, storage_ix: &mut usize, storage: &mut [u8]) {
     if n == 0 {
         BrotliWriteBits(1, 0, storage_ix, storage);
